@@ -345,7 +345,8 @@ def leakyMaxForm (slope : Rat) (x : D) : D :=
     ```
     m = K.max(tf.abs(x), axis=axis, keepdims=True)
     m = tf.where(m > 1.0, tf.ones_like(m), m)
-    f = 2 * m                                             # NOT under stop_gradient
+    f = tf.stop_gradient(2 * m)                           # repaired by 95def59 (was: f = 2 * m)
+    f = tf.where(f > 0.0, f, tf.ones_like(f))             # added by 0c3be6f (an all-zero group: x / 0 = NaN)
     x = smart_cond(K.learning_phase(),
         lambda: f * _round_through(x / f, use_stochastic_rounding=True, precision=0.125),
         lambda: x)
@@ -353,13 +354,43 @@ def leakyMaxForm (slope : Rat) (x : D) : D :=
     if self.alpha is None: x = K.tanh(x)
     return x + tf.stop_gradient(-x + self.scale * k_sign)
     ```
-    `f` is differentiable in the arg-max element (when `max|x| ≤ 1`): it enters as a dual number. -/
+    `2 * m` is differentiable in the arg-max element of the scale group (when `max|x| ≤ 1`): it enters as
+    an arbitrary dual number `f` and the code's `tf.stop_gradient` is applied to it HERE, so the theorems
+    hold for every tangent `f` may carry. -/
+
+def binSRRnd (u : Rat) : Rnd := { stoch := true, phase := true, precision := 1/8, u := u }
+
+/-- the normaliser as the code builds it from `2 * m`: stopped, and 1 for a group of zeros -/
+def binSRNorm (f : D) : D :=
+  -- f = tf.stop_gradient(2 * m); f = tf.where(f > 0.0, f, tf.ones_like(f))   (stop_gradient keeps the value)
+  if 0 < f.val then D.sg f else D.const 1
 
 def binSRTrainX (t : Tie) (f : D) (u : Rat) (x : D) : D :=
-  D.mul f (D.roundThroughS t { stoch := true, phase := true, precision := 1/8, u := u } (D.div x f))
+  let g := binSRNorm f
+  D.mul g (D.roundThroughS t (binSRRnd u) (D.div x g))
+
+/-- the training carrier with the stop_gradient but WITHOUT the fall-back for a group of zeros (the code
+    between 95def59 and 0c3be6f) — NOT the code: in exact arithmetic `x / 0` is Lean's total division (0), in
+    float32 it is NaN; either way the carrier is not straight-through there (`C06_binary_sr_zero_group_*`) -/
+def binSRTrainXNoFallback (t : Tie) (f : D) (u : Rat) (x : D) : D :=
+  D.mul (D.sg f) (D.roundThroughS t (binSRRnd u) (D.div x (D.sg f)))
+
+/-- the expression BEFORE the repair (`f = 2 * m`, not stopped) — NOT the code any more: kept to state
+    what the stop_gradient is for (`C06_binary_sr_unstopped_tan`) and for the regression witness -/
+def binSRTrainXUnstopped (t : Tie) (f : D) (u : Rat) (x : D) : D :=
+  D.mul f (D.roundThroughS t (binSRRnd u) (D.div x f))
+
+/-- `binary(use_stochastic_rounding=True).__call__`: the carrier is the rounded tensor in training
+    (`trainX` = the training branch), `x` itself otherwise; `tanh` of the CARRIER when alpha is None -/
+def binSRWith (trainX : D → D) (phase alphaNone : Bool) (th th' : Rat → Rat) (x xq : D) : D :=
+  let xr := if phase then trainX x else x
+  steMix true 1 (if alphaNone then D.fn th th' xr else xr) xq
 
 def binSRD (t : Tie) (phase alphaNone : Bool) (th th' : Rat → Rat) (f : D) (u : Rat) (x xq : D) : D :=
-  let xr := if phase then binSRTrainX t f u x else x
-  steMix true 1 (if alphaNone then D.fn th th' xr else xr) xq
+  binSRWith (binSRTrainX t f u) phase alphaNone th th' x xq
+
+/-- the whole call with the un-stopped normaliser (pre-repair) -/
+def binSRUnstoppedD (t : Tie) (phase alphaNone : Bool) (th th' : Rat → Rat) (f : D) (u : Rat) (x xq : D) : D :=
+  binSRWith (binSRTrainXUnstopped t f u) phase alphaNone th th' x xq
 
 end QKV
